@@ -350,10 +350,7 @@ func (p *queryPlan) processClause(ctx context.Context, cls *semantic.GraphClause
 			}
 		})
 		// Data is new.
-		stmLimit := int64(0)
-		if len(p.stm.GraphPatternClauses()) == 1 && len(p.stm.GroupBy()) == 0 && len(p.stm.HavingExpression()) == 0 {
-			stmLimit = p.stm.Limit()
-		}
+		stmLimit := p.pushableLimit(cls)
 		tbl, err := simpleFetch(ctx, p.grfs, cls, lo, stmLimit, p.chanSize, p.tracer)
 		if err != nil {
 			return true, err
@@ -389,6 +386,29 @@ func (p *queryPlan) processClause(ctx context.Context, cls *semantic.GraphClause
 		}
 	})
 	return false, p.specifyClauseWithTable(ctx, cls, lo)
+}
+
+// pushableLimit returns the LIMIT of the statement if the driver can apply it
+// while fetching the triples for the clause without changing the result, and 0
+// otherwise. That is the case only for a single clause query whose rows are not
+// sorted, grouped or filtered afterwards and whose clause turns every fetched
+// triple into a row: a partially specified predicate, an extraction that skips
+// triples it does not apply to or a repeated binding drop triples after the
+// driver has already counted them.
+func (p *queryPlan) pushableLimit(cls *semantic.GraphClause) int64 {
+	if len(p.stm.GraphPatternClauses()) != 1 || len(p.stm.GroupBy()) != 0 || len(p.stm.HavingExpression()) != 0 || len(p.stm.OrderByConfig()) != 0 {
+		return 0
+	}
+	if cls.PID != "" || cls.OID != "" || cls.PAnchorBinding != "" || cls.PAnchorAlias != "" ||
+		cls.OTypeAlias != "" || cls.OIDAlias != "" || cls.OAnchorBinding != "" || cls.OAnchorAlias != "" {
+		return 0
+	}
+	for _, n := range cls.BindingsMap() {
+		if n > 1 {
+			return 0
+		}
+	}
+	return p.stm.Limit()
 }
 
 // getBoundValueForComponent return the unique bound value if available on
@@ -471,10 +491,7 @@ func (p *queryPlan) addSpecifiedData(ctx context.Context, r table.Row, cls *sema
 		}
 	})
 
-	stmLimit := int64(0)
-	if len(p.stm.GraphPatternClauses()) == 1 && len(p.stm.GroupBy()) == 0 && len(p.stm.HavingExpression()) == 0 {
-		stmLimit = p.stm.Limit()
-	}
+	stmLimit := p.pushableLimit(cls)
 	tbl, err := simpleFetch(ctx, p.grfs, cls, lo, stmLimit, p.chanSize, p.tracer)
 	if err != nil {
 		return err
